@@ -178,6 +178,7 @@ class WSStream:
         self.app = app
         self.app_put: Optional[Callable] = None
         self.buffer = WebsocketBuffer(config.websocket_max_message_size)
+        self.client_close_code: Optional[int] = None
         self.client = client
         self.closed = False
         self.config = config
@@ -244,7 +245,9 @@ class WSStream:
         elif isinstance(event, StreamClosed):
             self.closed = True
             if self.app_put is not None:
-                if self.state in {ASGIWebsocketState.HTTPCLOSED, ASGIWebsocketState.CLOSED}:
+                if self.client_close_code is not None:
+                    code = self.client_close_code
+                elif self.state in {ASGIWebsocketState.HTTPCLOSED, ASGIWebsocketState.CLOSED}:
                     code = CloseReason.NORMAL_CLOSURE.value
                 else:
                     code = CloseReason.ABNORMAL_CLOSURE.value
@@ -322,6 +325,8 @@ class WSStream:
                 await self._send_wsproto_event(event.response())
             elif isinstance(event, CloseConnection):
                 if self.connection.state == ConnectionState.REMOTE_CLOSING:
+                    # The client initiated the close, tell the app why
+                    self.client_close_code = int(event.code)
                     await self._send_wsproto_event(event.response())
                 await self.send(StreamClosed(stream_id=self.stream_id))
 
